@@ -52,8 +52,32 @@ pub struct PartyInfo {
 
 impl crate::CborSerializable for PartyInfo {}
 
-impl AsCborValue for PartyInfo {
-    fn from_cbor_value(value: Value) -> Result<Self> {
+«use crate::vprelude::*;
+use crate::header::{prot_ok, prot_res, prot_slot, prot_encodable};
+use crate::common::{regp_of, regp_cv, wf_regp};
+// PartyInfo = ( identity: bstr / nil, nonce: bstr / int / nil, other: bstr / nil )
+pub open spec fn nonce_of(v: Value) -> Option<Option<Nonce>> {
+    match v {
+        Value::Null => Some(None),
+        Value::Bytes(b) => Some(Some(Nonce::Bytes(b))),
+        Value::Integer(i) => if in_i64(int_val(i)) { Some(Some(Nonce::Integer(int_val(i) as i64))) } else { None },
+        _ => None,
+    }
+}
+pub open spec fn party_ok(v: Value) -> bool {
+    v is Array && arr_of(v).len() == 3 && is_bytes_or_null(arr_of(v)[0]) && nonce_of(arr_of(v)[1]) is Some && is_bytes_or_null(arr_of(v)[2])
+}
+pub open spec fn party_res(v: Value, x: PartyInfo) -> bool {
+    payload_res(arr_of(v)[0], x.identity) && nonce_of(arr_of(v)[1]) == Some(x.nonce) && payload_res(arr_of(v)[2], x.other)
+}
+pub open spec fn nonce_cv(n: Option<Nonce>) -> CV { match n { None => CV::Null, Some(Nonce::Bytes(b)) => CV::Bytes(b@), Some(Nonce::Integer(i)) => CV::Int(i as int) } }
+pub open spec fn party_cv(x: PartyInfo) -> CV { CV::Array(seq![opt_bytes_cv(x.identity), nonce_cv(x.nonce), opt_bytes_cv(x.other)]) }
+»
+impl AsCborValue for PartyInfo {«
+    open spec fn dec_rel(value: Value, r: Result<Self>) -> bool { (r is Ok <==> party_ok(value)) && (r matches Ok(x) ==> party_res(value, x)) }
+    open spec fn enc_rel(self, r: Result<Value>) -> bool { r matches Ok(v) && vv(v) == party_cv(self) }»
+    fn from_cbor_value(value: Value) -> Result<Self> {«
+        broadcast use axiom_question_mark_uses_from;»
         let mut a = value.try_as_array()?;
         if a.len() != 3 {
             return Err(CoseError::UnexpectedItem("array", "array with 3 items"));
@@ -81,7 +105,7 @@ impl AsCborValue for PartyInfo {
     }
 
     fn to_cbor_value(self) -> Result<Value> {
-        Ok(Value::Array(vec![
+        «let r = »Ok(Value::Array(vec![
             match self.identity {
                 None => Value::Null,
                 Some(b) => Value::Bytes(b),
@@ -95,7 +119,9 @@ impl AsCborValue for PartyInfo {
                 None => Value::Null,
                 Some(b) => Value::Bytes(b),
             },
-        ]))
+        ]))«;
+        proof { let v = r->Ok_0; reveal_with_fuel(vv, 2); lemma_vv_value_array(v); assert(vv_seq(arr_of(v)) =~= party_cv(self)->Array_0); }
+        r»
     }
 }
 
@@ -159,8 +185,28 @@ pub struct SuppPubInfo {
 
 impl crate::CborSerializable for SuppPubInfo {}
 
-impl AsCborValue for SuppPubInfo {
-    fn from_cbor_value(value: Value) -> Result<Self> {
+«// SuppPubInfo = [ keyDataLength: uint, protected: empty_or_serialized_map, ? other: bstr ]
+pub open spec fn kdl_of(v: Value) -> Option<u64> { match v { Value::Integer(i) => if 0 <= int_val(i) <= u64::MAX { Some(int_val(i) as u64) } else { None }, _ => None } }
+pub open spec fn supp_pub_ok(v: Value) -> bool {
+    v is Array && (arr_of(v).len() == 2 || arr_of(v).len() == 3) && kdl_of(arr_of(v)[0]) is Some && prot_ok(arr_of(v)[1], 0)
+    && (arr_of(v).len() == 3 ==> arr_of(v)[2] is Bytes)
+}
+pub open spec fn supp_pub_res(v: Value, x: SuppPubInfo) -> bool {
+    kdl_of(arr_of(v)[0]) == Some(x.key_data_length) && prot_res(arr_of(v)[1], 0, x.protected)
+    && (if arr_of(v).len() == 3 { x.other matches Some(b) && arr_of(v)[2] == Value::Bytes(b) } else { x.other is None })
+}
+pub open spec fn supp_pub_cv(x: SuppPubInfo) -> CV {
+    match x.other {
+        None => CV::Array(seq![CV::Int(x.key_data_length as int), CV::Bytes(prot_slot(x.protected))]),
+        Some(b) => CV::Array(seq![CV::Int(x.key_data_length as int), CV::Bytes(prot_slot(x.protected)), CV::Bytes(b@)]),
+    }
+}
+»
+impl AsCborValue for SuppPubInfo {«
+    open spec fn dec_rel(value: Value, r: Result<Self>) -> bool { (r is Ok <==> supp_pub_ok(value)) && (r matches Ok(x) ==> supp_pub_res(value, x)) }
+    open spec fn enc_rel(self, r: Result<Value>) -> bool { (r is Ok <==> prot_encodable(self.protected)) && (r matches Ok(v) ==> vv(v) == supp_pub_cv(self)) }»
+    fn from_cbor_value(value: Value) -> Result<Self> {«
+        broadcast use axiom_question_mark_uses_from;»
         let mut a = value.try_as_array()?;
         if a.len() != 2 && a.len() != 3 {
             return Err(CoseError::UnexpectedItem(
@@ -183,14 +229,16 @@ impl AsCborValue for SuppPubInfo {
         })
     }
 
-    fn to_cbor_value(self) -> Result<Value> {
+    fn to_cbor_value(self) -> Result<Value> {«
+        broadcast use axiom_question_mark_uses_from;»
         let mut v = vec![
             Value::from(self.key_data_length),
             self.protected.cbor_bstr()?,
         ];
         if let Some(other) = self.other {
             v.push(Value::Bytes(other));
-        }
+        }«
+        proof { reveal_with_fuel(vv, 2); lemma_vv_array(v); assert(vv_seq(v@) =~= supp_pub_cv(self)->Array_0); }»
         Ok(Value::Array(v))
     }
 }
@@ -269,9 +317,29 @@ impl CoseKdfContext { pub closed spec fn is_default(self) -> bool {
 »
 impl crate::CborSerializable for CoseKdfContext {}
 
-impl AsCborValue for CoseKdfContext {
-    fn from_cbor_value(value: Value) -> Result<Self> {
-        let mut a = value.try_as_array()?;
+«// COSE_KDF_Context = [ AlgorithmID, PartyUInfo, PartyVInfo, SuppPubInfo, * SuppPrivInfo: bstr ]
+pub open spec fn kdf_ok(v: Value) -> bool {
+    v is Array && arr_of(v).len() >= 4 && regp_of::<iana::Algorithm>(arr_of(v)[0]) is Some && party_ok(arr_of(v)[1]) && party_ok(arr_of(v)[2])
+    && supp_pub_ok(arr_of(v)[3]) && forall |i: int| 4 <= i < arr_of(v).len() ==> (#[trigger] arr_of(v)[i]) is Bytes
+}
+pub closed spec fn kdf_res(v: Value, x: CoseKdfContext) -> bool {
+    Some(x.algorithm_id) == regp_of::<iana::Algorithm>(arr_of(v)[0]) && party_res(arr_of(v)[1], x.party_u_info) && party_res(arr_of(v)[2], x.party_v_info)
+    && supp_pub_res(arr_of(v)[3], x.supp_pub_info) && x.supp_priv_info@.len() == arr_of(v).len() - 4
+    && forall |j: int| 0 <= j < x.supp_priv_info@.len() ==> arr_of(v)[4 + j] == Value::Bytes(#[trigger] x.supp_priv_info@[j])
+}
+pub closed spec fn kdf_cv(x: CoseKdfContext) -> CV {
+    CV::Array(seq![regp_cv(x.algorithm_id), party_cv(x.party_u_info), party_cv(x.party_v_info), supp_pub_cv(x.supp_pub_info)]
+        + Seq::new(x.supp_priv_info@.len(), |j: int| CV::Bytes(x.supp_priv_info@[j]@)))
+}
+pub closed spec fn kdf_encodable(x: CoseKdfContext) -> bool { prot_encodable(x.supp_pub_info.protected) }
+»
+impl AsCborValue for CoseKdfContext {«
+    open spec fn dec_rel(value: Value, r: Result<Self>) -> bool { (r is Ok <==> kdf_ok(value)) && (r matches Ok(x) ==> kdf_res(value, x)) }
+    open spec fn enc_rel(self, r: Result<Value>) -> bool { (r is Ok <==> kdf_encodable(self)) && (r matches Ok(v) ==> vv(v) == kdf_cv(self)) }»
+    fn from_cbor_value(value: Value) -> Result<Self> {«
+        broadcast use axiom_question_mark_uses_from;»
+        let mut a = value.try_as_array()?;«
+        let ghost a0 = a@;»
         if a.len() < 4 {
             return Err(CoseError::UnexpectedItem(
                 "array",
@@ -281,10 +349,27 @@ impl AsCborValue for CoseKdfContext {
 
         // Remove array elements in reverse order to avoid shifts.
         let mut supp_priv_info = Vec::with_capacity(a.len() - 4);
-        { let mut i__ = a.len(); while i__ > 4« invariant 4 <= i__, a@.len() == i__, decreases i__» { i__ -= 1; let i = i__;
-            supp_priv_info.push(a.remove(i).try_as_bytes()?);
-        } }
-        supp_priv_info.reverse();
+        { let mut i__ = a.len(); while i__ > 4« invariant 4 <= i__ <= a0.len(), a@.len() == i__, a@ == a0.subrange(0, i__ as int), a0 == arr_of(value), value is Array,
+                supp_priv_info@.len() == a0.len() - i__,
+                forall |j: int| 0 <= j < supp_priv_info@.len() ==> a0[a0.len() - 1 - j] == Value::Bytes(#[trigger] supp_priv_info@[j]),
+            decreases i__» { i__ -= 1; let i = i__;«
+            broadcast use axiom_question_mark_uses_from;
+            let ghost sp = supp_priv_info@;
+            proof { assert(a@[i as int] == a0[i as int]); assert(kdf_ok(value) ==> a0[i as int] is Bytes); }»
+            supp_priv_info.push(a.remove(i).try_as_bytes()?);«
+            proof { assert(a@ =~= a0.subrange(0, i as int)); }»
+        } }«
+        let ghost sp0 = supp_priv_info@;»
+        supp_priv_info.reverse();«
+        proof {
+            assert(a@ =~= a0.subrange(0, 4));
+            assert forall |j: int| 0 <= j < supp_priv_info@.len() implies a0[4 + j] == Value::Bytes(#[trigger] supp_priv_info@[j]) by {
+                assert(supp_priv_info@[j] == sp0[sp0.len() - 1 - j]);
+            }
+            assert forall |i: int| 4 <= i < a0.len() implies (#[trigger] a0[i]) is Bytes by {
+                assert(a0[4 + (i - 4)] == Value::Bytes(supp_priv_info@[i - 4]));
+            }
+        }»
 
         Ok(Self {
             supp_priv_info,
@@ -295,16 +380,28 @@ impl AsCborValue for CoseKdfContext {
         })
     }
 
-    fn to_cbor_value(self) -> Result<Value> {
+    fn to_cbor_value(self) -> Result<Value> {«
+        broadcast use axiom_question_mark_uses_from;
+        let ghost x0 = self;»
         let mut v = vec![
             self.algorithm_id.to_cbor_value()?,
             self.party_u_info.to_cbor_value()?,
             self.party_v_info.to_cbor_value()?,
             self.supp_pub_info.to_cbor_value()?,
         ];
-        for supp_priv_info in self.supp_priv_info {
-            v.push(Value::Bytes(supp_priv_info));
-        }
+        «let ghost sp = self.supp_priv_info@;
+        let ghost head = seq![regp_cv(x0.algorithm_id), party_cv(x0.party_u_info), party_cv(x0.party_v_info), supp_pub_cv(x0.supp_pub_info)];
+        proof { assert(vv_seq(v@) =~= head); }»
+        for supp_priv_info in« it:» self.supp_priv_info«
+            invariant x0 == self, sp == x0.supp_priv_info@, sp == self.supp_priv_info@, 0 <= it.index@ <= sp.len(),
+                head == seq![regp_cv(x0.algorithm_id), party_cv(x0.party_u_info), party_cv(x0.party_v_info), supp_pub_cv(x0.supp_pub_info)],
+                vv_seq(v@) == head + Seq::new(it.index@ as nat, |j: int| CV::Bytes(sp[j]@)),» {«
+            let ghost n = it.index@; let ghost vp = v@;
+            proof { assert(supp_priv_info == sp[n]); }»
+            v.push(Value::Bytes(supp_priv_info));«
+            proof { lemma_vv_seq_push(vp, v@.last()); assert(vv_seq(v@) =~= head + Seq::new((n + 1) as nat, |j: int| CV::Bytes(sp[j]@))); }»
+        }«
+        proof { lemma_vv_array(v); assert(Seq::new(sp.len(), |j: int| CV::Bytes(sp[j]@)) =~= Seq::new(x0.supp_priv_info@.len(), |j: int| CV::Bytes(x0.supp_priv_info@[j]@))); }»
         Ok(Value::Array(v))
     }
 }
